@@ -4,23 +4,34 @@ every program mix and every schedule (incl. wake choice, spurious futex returns,
 observed by relaxed loads).
 
 The protocol model is `Model/Mutex.lean`; its inductive invariant is proved in `Proofs/MutexInv.lean`.
-The model is tied to the code two ways on every run of `bin/check C01`:
- * T: `Gen/SyncSites.lean` is regenerated from mutex.rs / sync.rs / futex.rs; `gen_shape_ok` and
-   `gen_cfg_good` below re-check (by `decide`) that the atomic call sites, their literal operands, the
-   control-flow literals and the memory orderings are the ones the model and the proofs rely on;
+The model is tied to the code on every run of `bin/check C01`:
  * C: the real mutex.rs runs under a deterministic scheduler and every produced trace must be accepted by
-   `step` (driver `drv_c01`).
+   `step` (driver `drv_c01`); the driver replays each RMW with the memory ordering the running code actually
+   passed, so `raced` is judged with the code's own orderings, whichever source line they come from;
+ * T (static): `Gen/SyncSites.lean` is regenerated from mutex.rs / sync.rs / futex.rs.  Every RMW of the lock
+   word carries a *role* (what it does to the word: `acquire` = writes a locked state, `release` = writes 0,
+   `both` = cannot tell).  The obligations below are position-independent: *every* acquiring RMW is Acquire or
+   stronger, *every* releasing RMW Release or stronger, no plain store touches the word (the memory model of
+   `Model/Mutex.lean` relies on RMW-only writes), wait and wake use the same futex key kind.  Which function an
+   operation stands in, and in which order the sites appear, is not part of any obligation: the operation
+   sequence is pinned by C.
+ * T (observed): `Gen/MutexObs.lean` is regenerated from the traces: the orderings of the RMWs that returned a
+   guard / began a guard's drop, the spin budget, the futex operation words of the real rusl::futex.  The
+   observed orderings must be good in any case; the static ones whenever the static table was understood
+   (no `.unknown` ordering).  When it was not, the configuration rests on the observation alone (explored
+   schedules only) and the check says so in its evidence.
 -/
 import TinyVerif.Model.Mutex
 import TinyVerif.Proofs.MutexInv
 import TinyVerif.Proofs.MutexLive
 import TinyVerif.Gen.SyncSites
+import TinyVerif.Gen.MutexObs
 set_option linter.unusedSimpArgs false
 set_option linter.unusedVariables false
 namespace TinyVerif.Mutex
 open TinyVerif.Gen.Sync
 
-/-! ## tie T: the regenerated site table has the shape and the orderings the model assumes -/
+/-! ## tie T: position-independent obligations on the regenerated site table and on the observation -/
 
 def isAcq : Ord → Bool
   | .acquire | .acqrel | .seqcst => true
@@ -29,43 +40,47 @@ def isRel : Ord → Bool
   | .release | .acqrel | .seqcst => true
   | _ => false
 
-/-- (fn, op, atomic, literal operands) of every atomic / futex call site of mutex.rs, in source order -/
-def expectedMutexShape : List (String × String × String × List String) :=
-  [("try_lock", "compare_exchange", "futex", ["0", "1"]),
-   ("lock", "compare_exchange", "futex", ["0", "1"]),
-   ("lock_contended", "compare_exchange", "futex", ["0", "1"]),
-   ("lock_contended", "swap", "futex", ["2"]),
-   ("lock_contended", "futex_wait_fast", "futex", ["2"]),
-   ("spin", "load", "futex", []),
-   ("unlock", "swap", "futex", ["0"]),
-   ("wake", "futex_wake", "futex", ["1"])]
+def needsAcq (s : Site) : Bool := s.role == "acquire" || s.role == "both"
+def needsRel (s : Site) : Bool := s.role == "release" || s.role == "both"
+/-- success ordering of an RMW / ordering of a load (first ordering argument) -/
+def succOrd (s : Site) : Ord := s.ords.getD 0 .unknown
 
-def expectedSyncShape : List (String × String × String × List String) :=
-  [("futex_wait_fast", "load", "futex", []),
-   ("futex_wait_fast", "futex_wait", "arg", ["expect", "FutexFlags::PRIVATE", "None"])]
+/-- the static table was understood: every atomic operation has literal (or aliased) orderings -/
+def staticUnderstood : Bool :=
+  mutexSites.all (fun s => s.role == "wait" || s.role == "wake" || (!s.ords.isEmpty && s.ords.all (· != .unknown)))
+/-- every RMW of mutex.rs that may take the lock is Acquire or stronger (and there is one) -/
+def staticAcqOk : Bool := mutexSites.any needsAcq && mutexSites.all (fun s => !needsAcq s || isAcq (succOrd s))
+/-- every RMW of mutex.rs that gives the lock up is Release or stronger (and there is one) -/
+def staticRelOk : Bool := mutexSites.any needsRel && mutexSites.all (fun s => !needsRel s || isRel (succOrd s))
+/-- the lock word is only ever written by RMWs (release sequences are never broken by a plain store) -/
+def noStore : Bool := mutexSites.all (fun s => s.op != "store")
 
-def shapeOf (l : List Site) : List (String × String × String × List String) :=
-  l.map (fun s => (s.fn, s.op, s.loc, s.vals))
+/-- every RMW that returned a guard on some explored schedule carried Acquire or stronger (and some did) -/
+def obsAcqOk : Bool :=
+  Gen.MutexObs.observed.any (fun r => r.2.1 == "acquire") &&
+  Gen.MutexObs.observed.all (fun r => r.2.1 != "acquire" || isAcq r.2.2)
+/-- every RMW that began a guard's drop carried Release or stronger (and some did) -/
+def obsRelOk : Bool :=
+  Gen.MutexObs.observed.any (fun r => r.2.1 == "release") &&
+  Gen.MutexObs.observed.all (fun r => r.2.1 != "release" || isRel r.2.2)
 
-def genShapeOk : Bool :=
-  shapeOf mutexSites == expectedMutexShape && shapeOf syncSites == expectedSyncShape &&
-  mutex_unlock_wake_if == 2 && mutex_loop_skip_if_state == 2 && mutex_swap_acquired_if == 0 &&
-  mutex_spin_stop_unless == 1 && decide (0 ≤ mutex_spin) &&
-  -- the waiter's futex key kind must match the wakers' (here and the kernel's clear-tid wake used by join: both shared)
-  futexWaitPrivate == futexWakePrivate
+/-- the waiter's futex key kind must match the wakers' (here and the kernel's clear-tid wake used by join: both
+shared) — judged on the operation words the real rusl::futex issued, and on the source text when understood -/
+def futexKeyOk : Bool :=
+  Gen.MutexObs.futexWaitPrivate == Gen.MutexObs.futexWakePrivate &&
+  (!futexKeyUnderstood || (futexWaitPrivate == Gen.MutexObs.futexWaitPrivate && futexWakePrivate == Gen.MutexObs.futexWakePrivate))
+
+def genShapeOk : Bool := noStore && futexKeyOk
 
 theorem gen_shape_ok : genShapeOk = true := by decide
 
-def succOrd (l : List Site) (k : Nat) : Ord := ((l.getD k ⟨"", "", "", [], []⟩).ords.getD 0 .relaxed)
-
-/-- the configuration of the model taken from the regenerated table -/
+/-- the configuration of the model: an ordering bit is set iff *all* RMWs of that kind are strong enough, in the
+observation and (when understood) in the source -/
 def genCfg : Cfg :=
-  { tryAcq := isAcq (succOrd mutexSites 0)
-    lockAcq := isAcq (succOrd mutexSites 1)
-    cas2Acq := isAcq (succOrd mutexSites 2)
-    swap2Acq := isAcq (succOrd mutexSites 3)
-    unlockRel := isRel (succOrd mutexSites 6)
-    spinMax := mutex_spin.toNat }
+  let a := obsAcqOk && (!staticUnderstood || staticAcqOk)
+  let r := obsRelOk && (!staticUnderstood || staticRelOk)
+  { tryAcq := a, lockAcq := a, cas2Acq := a, swap2Acq := a, unlockRel := r
+    spinMax := Gen.MutexObs.spinBudget }
 
 theorem gen_cfg_good : genCfg.Good := by decide
 
